@@ -1,7 +1,5 @@
-import Pko.Drv.SysCommon
-namespace Pko.Drv.C06
-open Pko.Drv.SysCommon
-def monitor (_s : Scn) (_out : String) : String := "ok"
-end Pko.Drv.C06
+import Pko.Drv.SysMon
+/-! Driver for C06 on the controller-level stream: model = ObjectSet controller model,
+monitor = `Pko.Drv.SysMon.judge .c06`. -/
 def main (args : List String) : IO UInt32 :=
-  Pko.Util.driverMain Pko.Drv.SysCommon.Scn Pko.Drv.SysCommon.model Pko.Drv.C06.monitor args
+  Pko.Util.driverMain Pko.Drv.SysCommon.Scn Pko.Drv.SysCommon.model (Pko.Drv.SysMon.monitor .c06) args
